@@ -419,7 +419,7 @@ func solveStaged(r *OblResult, timeoutS int, order []int) *SolveResult {
 				pr.Time = tc
 				if pr.Status != "unsat" {
 					t1 := pr.Time
-					pr = Solve2race(sc, "", 3, order)
+					pr = Solve2race(sc, "", 5, order)
 					pr.Time += t1
 				} else {
 					pr.Solver = "coi:" + pr.Solver
